@@ -37,7 +37,15 @@ MANIFEST = {
             "printer itself (no prefix defined twice in a tag or re-defined in the scope, default namespace = module of the "
             "node, the prefix of every metadata attribute bound in scope to the namespace of its annotation's module) - the "
             "law QNamesX checks on libyang's bytes; the definitions for prefixes INSIDE values (identityref, "
-            "instance-identifier, xpath1.0; e9b7253) are outside the model, which holds canonical strings only. C12_json_doc_std / _sel / _checked: an RFC 8259 reader (grammar of "
+            "instance-identifier, xpath1.0) are modelled per start tag in XmlQn.v (values = literal pieces and module "
+            "references printed with the module's own prefix; xml_print_node_open / xml_print_meta / xml_print_ns as coded "
+            "after e9b7253: reserved value modules, REQUIRED definitions, attribute prefixes avoiding reserved ones, hidden "
+            "definitions not reused): C12_xml_value_prefixes / _tree - under ANY ancestor scope, if the value modules of a tag "
+            "do not need one prefix for two namespaces, no prefix is defined twice in the tag and every module reference of "
+            "the node value and the metadata values, and every metadata attribute prefix, resolves in the scope of the element "
+            "to the right namespace; C12_xml_value_prefixes_shared_refuted = listed finding xml-same-prefix-value-clash; "
+            "regression Examples for the shapes of C12-3 and C12-8. PARTIAL: XmlQn.v is a start-tag model that is not "
+            "extracted; its tie to the code is the oracle QNamesX only. C12_json_doc_std / _sel / _checked: an RFC 8259 reader (grammar of "
             "sections 2-7 + StdText strings) applied to json_print (the transcription of printer_json.c with its state) for "
             "EVERY node selection recovers the RFC 7951 value of the selected part of the forest (qualifiers, arrays, string / "
             "literal classes, [null], RFC 7952 metadata objects), through C01_json_print_is_rfc7951 (the state machine prints "
